@@ -2001,6 +2001,35 @@ def c17_checks(repo: Repo, tier: str, res: CheckResult, seed: int) -> None:
         n += 1
         res.evaluated("G:kinds:" + "/".join(key), True)
         base_kind = "dataclass" if "dataclass" in by_kind else sorted(by_kind)[0]
+        # every kind: each constructor argument carries the field its parameter is named after
+        for kind, rec in by_kind.items():
+            L = rec["loader"]
+            if L["error"] is not None or L["source"] is None or not rec.get("ctor_params"):
+                continue
+            from .genaudit import audit_loader
+            fn_, _alias = _parse_hook_source(L["source"])
+            S_ = audit_loader(fn_)
+            if len(S_.ctor_calls) != 1:
+                continue
+            call = S_.ctor_calls[0]
+            params = [p for p in rec["ctor_params"] if p[1] not in ("VAR_POSITIONAL", "VAR_KEYWORD")]
+            field_of = lambda pname: {f[0].lstrip("_"): f[0] for f in rec["fields"]}.get(pname.lstrip("_"), pname)   # noqa: E731
+            wrong = []
+            for i, a in enumerate(call.args):
+                if isinstance(a, ast.Name) and a.id.startswith("f_") and i < len(params):
+                    if a.id[2:] != field_of(params[i][0]):
+                        wrong.append(f"positional argument {i} is `{a.id}` but parameter {i} of {kind} model is `{params[i][0]}`")
+            for k in call.keywords:
+                if k.arg is not None and isinstance(k.value, ast.Name) and k.value.id.startswith("f_"):
+                    if k.value.id[2:] != field_of(k.arg):
+                        wrong.append(f"parameter `{k.arg}` receives `{k.value.id}`")
+            res.evaluated(f"G:kinds-ctor:{'/'.join(key)}:{kind}", True)
+            if wrong:
+                res.add(Finding("C17", "KIND.constructor-binding", "adaptix/_internal/morphing/model/loader_gen.py", "_gen_constructor_call",
+                                f"{kind}: " + "; ".join(wrong)[:150],
+                                f"logical model {key[0]} as {kind} under `{key[1]}`: `{norm(call)[:120]}` -- {'; '.join(wrong)}. The twins of the "
+                                "other kinds pass every value to the parameter of its own field, so the same input loads to different "
+                                "objects depending on the kind", 0))
         for what, fpf in (("loader", _kind_loader_fp), ("dumper", _kind_dumper_fp)):
             try:
                 base = fpf(by_kind[base_kind])
